@@ -1,6 +1,7 @@
 SPECIFICATION RepSpec
 CONSTANTS
   Params = {"p1", "p2"}
+  Mod2 = {"p2"}
   Vals = {"a", "b"}
   Errs = {"e1"}
   Invs = {"i1"}
@@ -9,7 +10,8 @@ CONSTANTS
   InitStamps = {0, 1}
   NoDefault = {"p1"}
   InitScopeSets = {{}, {"all"}}
-  ActScopes = {"p1"}
+  HiddenChoices = {{}}
+  ActScopes = {"mod"}
   MaxNow = 3
 CONSTRAINT TimeBound
 INVARIANT TypeOK
@@ -18,5 +20,5 @@ PROPERTY Ordered
 INVARIANT RecoveryNeverSuppressed
 PROPERTY RecoveryAnnounced
 PROPERTY Isolation
-PROPERTY StampMonotone
+PROPERTY Frame
 CHECK_DEADLOCK FALSE
